@@ -678,4 +678,91 @@ theorem crash_cut_open_aux {max : Nat} {h : Handle} {d : Disk} {items : List Byt
     obtain ⟨h2, d2, ho, hg, hh⟩ := open_junk_head (items := items) hrevc hold.1 hold.2
     exact ⟨h2, d2, ho, hh, Or.inl hg, fun hd _ => absurd hd hfull⟩
 
+/-! ### arbitrary cuts: index at any entry count, head data file at any length -/
+
+/-- The repair loop on a disk whose head data file `H` was cut to `m` bytes (all older files
+    intact): it drops exactly the maximal run of newest entries whose data is (partly) missing —
+    those in file `H` ending beyond `m` — and leaves a consistent disk for the rest. -/
+theorem repair_cut {files : Nat → Bytes} {H m : Nat} :
+    ∀ (rev : List Entry) (its : List Bytes), RChain files rev its → (∀ q ∈ rev, q.fid ≤ H) →
+    ∀ (e : Entry) (rest : List Entry), rev = e :: rest →
+    ∃ (j : Nat) (files' : Nat → Bytes) (e' : Entry) (rest' : List Entry),
+      j ≤ its.length ∧ (∀ q ∈ rev.take j, q.fid = H ∧ m < q.off) ∧ rev.drop j = e' :: rest' ∧
+      repair true rev (setFile files H ((files H).take m)) e.fid
+        ((setFile files H ((files H).take m)) e.fid).length = some (e' :: rest', files', e'.fid, e'.off) ∧
+      RChain files' (e' :: rest') (its.drop j) ∧ (files' e'.fid).length = e'.off ∧
+      (e'.fid < H ∨ e'.off ≤ m)
+  | [e0], [], hc, _, e, rest, hr => by
+    cases hr
+    simp only [RChain] at hc
+    subst hc
+    refine ⟨0, setFile (setFile files H ((files H).take m)) 0 [], ⟨0, 0⟩, [], Nat.le_refl _, ?_, rfl, ?_, ?_, ?_, ?_⟩
+    · intro q hq; simp at hq
+    · by_cases h0 : ((setFile files H ((files H).take m)) 0).length = 0
+      · -- already empty: the loop returns the files unchanged; they agree with the emptied ones
+        have hz : (setFile files H ((files H).take m)) 0 = [] := List.eq_nil_of_length_eq_zero h0
+        have : setFile (setFile files H ((files H).take m)) 0 [] = setFile files H ((files H).take m) := by
+          funext k; unfold setFile; split
+          · rename_i hk; subst hk; exact hz.symm
+          · rfl
+        rw [this]
+        simp [repair, h0]
+      · have hpos : 0 < ((setFile files H ((files H).take m)) 0).length := Nat.pos_of_ne_zero h0
+        simp [repair, h0, hpos, setLen]
+    · simp [RChain]
+    · simp
+    · exact Or.inr (Nat.zero_le _)
+  | e :: p :: rest0, it :: its', hc, hH, e1, rest1, hr => by
+    cases hr
+    have hle := hc.1.off_le
+    have hfe : e.fid ≤ H := hH e (by simp)
+    -- is the newest entry's data complete?
+    by_cases hdrop : e.fid = H ∧ m < e.off
+    · -- no: drop it and continue with the previous entry
+      have hsize : ((setFile files H ((files H).take m)) e.fid).length < e.off := by
+        rw [hdrop.1, setFile_same, List.length_take]; omega
+      have ih := repair_cut (files := files) (H := H) (m := m) (p :: rest0) its' hc.2
+        (fun q hq => hH q (List.mem_cons_of_mem _ hq)) p rest0 rfl
+      obtain ⟨j, files', e', rest', hj, hdropped, hdrop', hrep, hch, hlen, hkept⟩ := ih
+      refine ⟨j + 1, files', e', rest', by simp; omega, ?_, by simpa using hdrop', ?_, by simpa using hch, hlen, hkept⟩
+      · intro q hq
+        simp only [List.take_succ_cons, List.mem_cons] at hq
+        rcases hq with rfl | hq
+        · exact hdrop
+        · exact hdropped q hq
+      · have hne : ¬ e.off = ((setFile files H ((files H).take m)) e.fid).length := by omega
+        have hnl : ¬ e.off < ((setFile files H ((files H).take m)) e.fid).length := by omega
+        rw [repair]
+        simp only [hne, hnl, if_false]
+        by_cases hf : p.fid = e.fid
+        · simp only [hf, ne_eq, not_true_eq_false, if_false]
+          rw [← hf]; exact hrep
+        · simp only [ne_eq, hf, not_false_eq_true, if_true]
+          exact hrep
+    · -- yes: the loop stops here (cutting the head back to this entry's offset if it is longer)
+      have hcomplete : e.fid < H ∨ e.off ≤ m := by
+        rcases Nat.lt_or_ge e.fid H with h1 | h1
+        · exact Or.inl h1
+        · right
+          have : e.fid = H := Nat.le_antisymm hfe h1
+          rcases Nat.lt_or_ge m e.off with h2 | h2
+          · exact absurd ⟨this, h2⟩ hdrop
+          · exact h2
+      -- the cut files still carry the whole chain
+      have hchainF : RChain (setFile files H ((files H).take m)) (e :: p :: rest0) (it :: its') := by
+        rcases hcomplete with h1 | h1
+        · exact RChain.congr rfl (fun k hk => by rw [setFile_other]; omega) hc
+        · by_cases hfe' : e.fid = H
+          · rw [← hfe']
+            exact RChain.modify_head e.off _ rfl (Nat.le_refl _) (Pres.take _ h1) hc
+          · exact RChain.congr rfl (fun k hk => by rw [setFile_other]; omega) hc
+      have hleF : e.off ≤ ((setFile files H ((files H).take m)) e.fid).length := by
+        rcases hcomplete with h1 | h1
+        · rw [setFile_other _ _ _ _ (by omega)]; exact hle
+        · by_cases hfe' : e.fid = H
+          · rw [hfe', setFile_same, List.length_take]; rw [hfe'] at hle; omega
+          · rw [setFile_other _ _ _ _ hfe']; exact hle
+      obtain ⟨files', h1, h2, h3⟩ := repair_junk_head hchainF hleF
+      exact ⟨0, files', e, p :: rest0, Nat.zero_le _, by simp, rfl, h1, by simpa using h2, h3, hcomplete⟩
+
 end CkbVerif.Freezer
